@@ -3,6 +3,7 @@ package main
 // Symbolic execution of go/ssa (naive form) over the loop-cut CFG.
 
 import (
+	"regexp"
 	"fmt"
 	"go/token"
 	"go/types"
@@ -526,6 +527,8 @@ func (fr *Frame) flow(from, to *ssa.BasicBlock, st *State, cond string, in map[*
 	in[to] = append(in[to], st)
 }
 
+var reTempName = regexp.MustCompile(`^t\d+$`)
+
 func (fr *Frame) mergeStates(ins []*State) *State {
 	g := fr.g
 	if len(ins) == 1 {
@@ -561,6 +564,10 @@ func (fr *Frame) mergeStates(ins []*State) *State {
 		for _, s := range ins {
 			if v, ok := s.cells[c]; ok {
 				vals = append(vals, v)
+				conds = append(conds, s.path)
+			} else if c.name != "" && c.name != "defer$flag" && !reTempName.MatchString(c.name) {
+				// a source variable whose declaration was not reached on this path: specifications read its zero value
+				vals = append(vals, g.S.zero(c.t))
 				conds = append(conds, s.path)
 			}
 		}
